@@ -12,5 +12,7 @@ for c in "$@"; do
   ./check "$c" --tier quick 2>&1 | grep -v '^note' | tail -4
 done
 git -C /repo checkout -- .
+# rebuild against the clean tree so that no stale (seeded) binary is left behind
+(cd harness && RUSTFLAGS="--cfg foca_verif" CARGO_TARGET_DIR=../build/target CARGO_NET_OFFLINE=true cargo build --offline >/dev/null 2>&1)
 git -C /verif checkout -- evidence
 echo "== reverted: $(git -C /repo status --short | wc -l) dirty files in /repo"
